@@ -120,6 +120,12 @@ def install_repr_contracts(I):
         return I_.call_function(jg.nbt_to_snbt, [tag], {})
     I.override(jg.nbt_to_snbt, snbt, kind='assumed')
 
+    # Packet.field_string (base implementation) through its contract: total, returns a string
+    # (proved from its body in unit C05.field-string); subclass overrides are still executed.
+    def field_string(I_, self_, field):
+        return I_.E.new_str('field-string')
+    I.override(raw(Packet, 'field_string'), field_string, kind='contract')
+
 
 def _as_terms(v):
     if isinstance(v, MutableRecord):
@@ -211,13 +217,14 @@ def fill_map(I, pkt, i):
     return v
 
 
-def fill_player_list(I, pkt, i):
+def fill_player_list(I, pkt, i, variant=None):
     E = I.E
     PL = PlayerListItemPacket
-    cls = [PL.AddPlayerAction, PL.UpdateGameModeAction, PL.UpdateLatencyAction, PL.UpdateDisplayNameAction,
-           PL.RemovePlayerAction][E.fork(5, 'action-type')]
+    kinds = [PL.AddPlayerAction, PL.UpdateGameModeAction, PL.UpdateLatencyAction, PL.UpdateDisplayNameAction,
+             PL.RemovePlayerAction]
+    cls = kinds[variant[0]] if variant else kinds[E.fork(5, 'action-type')]
     actions = []
-    for j in range(E.fork(3, 'actions')):
+    for j in range(variant[1] if variant else E.fork(3, 'actions')):
         a = cls()
         a.uuid = E.new_str('a%d.uuid' % j)
         if cls is PL.AddPlayerAction:
@@ -314,9 +321,10 @@ class RoundTrip(Unit):
     max_paths = 60000
     wall_budget_s = 240
 
-    def __init__(self, state, direction, get_packets, cls):
+    def __init__(self, state, direction, get_packets, cls, variant=None):
         self.state, self.direction, self.get_packets, self.cls = state, direction, get_packets, cls
-        self.name = 'C05.%s.%s.%s' % (state, direction, cls.__name__)
+        self.variant = variant
+        self.name = 'C05.%s.%s.%s%s' % (state, direction, cls.__name__, '' if variant is None else '[%s]' % ','.join(map(str, variant)))
         self.int_mode = 'int' if cls.__name__ in INT_MODE_CLASSES else 'bv'
         q = cls.__module__ + '.' + cls.__qualname__
         self.functions = (q + '.read', q + '.write_fields', q + '.get_definition / definition', q + '.__repr__')
@@ -338,15 +346,8 @@ class RoundTrip(Unit):
             return None
         pkt = I.call(cls)
         I.setattr_(pkt, 'context', ctx)
-        try:
-            pid = I.call(cls.get_id, ctx)
-        except PyRaise as e:
-            E.check('rt.id', False, note='get_id raised %r' % (e.exc,))
-            return None
-        E.check('rt.id', isinstance(pid, int) and not isinstance(pid, bool) and pid >= 0 and I.getattr_(pkt, 'id') == pid,
-                note='a non-negative integer id, the one the instance reports')
         if cls in HANDWRITTEN:
-            vals = HANDWRITTEN[cls](I, pkt, i)
+            vals = HANDWRITTEN[cls](I, pkt, i, self.variant) if self.variant is not None else HANDWRITTEN[cls](I, pkt, i)
         else:
             try:
                 definition = I.getattr_(pkt, 'definition')
@@ -390,6 +391,9 @@ class RoundTrip(Unit):
         E.check('rt.consumed', rest.length() == 0, note='the payload is consumed exactly')
         if cls is SpawnObjectPacket:
             return None       # its field_enum formats the concrete protocol number: repr is covered by the bounded part only
+        # the id shown by repr comes from the ladder verified in C05.ids; fixing it here keeps the version regions of
+        # the ladder from multiplying the paths of this unit
+        pkt2.__dict__['id'] = 0x7E
         try:
             r = I.call(I.getattr_(pkt2, '__repr__'))
             E.check('repr.total', isinstance(r, (str, SStr)))
@@ -705,5 +709,95 @@ def replay_generated(rng):
     return dict(confirmed=False, call=call, observed='conforms')
 
 
+class Ids(Unit):
+    """rt.id: for every class and every supported version on which it is registered, get_id is a non-negative int and the
+    instance property `id` reports the same value (what Packet.write prefixes: C01.write.frame)."""
+    prop = 'C05'
+    name = 'C05.ids'
+    int_mode = 'int'
+    functions = ('minecraft.networking.packets.packet.Packet.id', 'minecraft.networking.packets.packet.Packet.get_id',
+                 'get_id of every registered class')
+    max_paths = 20000
+
+    def setup(self, I):
+        install_version_contracts(I)
+
+    def run(self, I):
+        E = I.E
+        classes = all_classes()
+        state, direction, gp, cls = classes[E.fork(len(classes), 'class')]
+        ctx, i = sym_context(I, 'supported')
+        if not I.truth(cls in I.call(gp, ctx)):
+            return None
+        pkt = I.call(cls)
+        I.setattr_(pkt, 'context', ctx)
+        try:
+            pid = I.call(cls.get_id, ctx)
+            E.check('rt.id[%s]' % cls.__name__, isinstance(pid, int) and not isinstance(pid, bool) and pid >= 0 and
+                    I.getattr_(pkt, 'id') == pid, note='a non-negative integer id, the one the instance reports')
+        except PyRaise as e:
+            E.check('rt.id[%s]' % cls.__name__, False, note='get_id raised %r' % (e.exc,))
+        return None
+
+    def replay(self, model, label):
+        i = int(model.get('i', 0))
+        name = label.split('[')[-1].rstrip(']')
+        for state, direction, gp, cls in all_classes():
+            if cls.__name__ == name:
+                ctx = real_context(i)
+                k, v = native_call(cls.get_id, ctx)
+                bad = cls in gp(ctx) and not (k == 'ok' and isinstance(v, int) and v >= 0 and cls(ctx).id == v)
+                return dict(confirmed=bad, call='%s.get_id at protocol %d' % (name, protocol_of_index(i)), observed='%s %r' % (k, v))
+        return dict(confirmed=False, call='get_id', observed='')
+
+
+class FieldString(Unit):
+    """Packet.field_string / field_enum (base implementations) are total: for every field value and every enum outcome
+    they return a string."""
+    prop = 'C05'
+    name = 'C05.field-string'
+    functions = ('minecraft.networking.packets.packet.Packet.field_string', 'minecraft.networking.packets.packet.Packet.field_enum')
+
+    def setup(self, I):
+        install_version_contracts(I)
+        from minecraft.networking.types.enum import Enum, BitFieldEnum
+
+        def name_model(I_, cls, value):
+            return I_.E.new_str('enum-name') if I_.E.fork(2, 'enum-name') else None
+        I.override(raw(Enum, 'name_from_value'), name_model, kind='contract')
+        I.override(raw(BitFieldEnum, 'name_from_value'), name_model, kind='contract')
+
+    def run(self, I):
+        E = I.E
+        classes = [c for _s, _d, _g, c in all_classes()]
+        cls = classes[E.fork(len(classes), 'class')]
+        pkt = cls.__new__(cls)
+        ctx, i = sym_context(I, 'supported')
+        pkt.__dict__['context'] = ctx
+        names = ['game_mode', 'difficulty', 'flags', 'action_id', 'displayed_skin_parts', 'no_such_field', 'x']
+        field = names[E.fork(len(names), 'field')]
+        kind = E.fork(3, 'value')
+        if kind < 2:
+            pkt.__dict__[field] = E.new_int('value') if kind == 0 else E.new_str('value')
+        try:
+            r = I.call(raw(Packet, 'field_string'), pkt, field)
+            E.check('field-string.total', isinstance(r, (str, SStr)))
+        except PyRaise as e:
+            E.check('field-string.total', False, note='%s.%s: %r' % (cls.__name__, field, e.exc))
+        return None
+
+    def replay(self, model, label):
+        return dict(confirmed=False, call='Packet.field_string', observed='')
+
+
 def units(tier):
-    return [RoundTrip(*t) for t in all_classes()] + [GenericDefinition()]
+    us = []
+    for t in all_classes():
+        if t[3] is PlayerListItemPacket:
+            # one unit per (action type, number of actions) so that the string-heavy cases run in parallel
+            us += [RoundTrip(*t, variant=(k, n)) for k in range(5) for n in range(3)]
+        else:
+            us.append(RoundTrip(*t))
+    # longest first, for the process pool
+    us.sort(key=lambda u: 0 if u.cls in (PlayerListItemPacket, JoinGamePacket, MapPacket) else 1)
+    return us + [GenericDefinition(), FieldString(), Ids()]
